@@ -25,6 +25,12 @@ func spec_eq[T any](a, b T) bool                        { panic("ghost: structur
 func spec_all[T any](p func(T) bool) bool               { panic("ghost: unbounded quantifier") }
 func spec_any[T any](p func(T) bool) bool               { panic("ghost: unbounded quantifier") }
 func spec_fresh(p any) bool                             { panic("ghost: allocation predicate") }
+func spec_assert(c bool) {
+	if !c {
+		panic("ghost assertion failed")
+	}
+}
+func spec_assume(c bool) {}
 
 // bounded (executable) quantifiers for spec functions: lo <= i < hi
 func spec_existsIn(lo, hi int, p func(int) bool) bool {
